@@ -97,7 +97,7 @@ def same(a, b):
 # ---- generators -------------------------------------------------------------------------------------
 TRICKY = [b'', b'0:~', b'12:', b':', b'3:abc,', b',', b'}', b']', b'#$^!~', b'5', b'1:', b'\n', b'10:0123456789,', bytes(range(256)),
           b'4:true!', b'::::', b'9999999999:']
-TEXTS = ['', 'a', 'é', '12:', '中文', ':,', 'x' * 300, '\U0001f600~', '\n\n']
+TEXTS = ['', 'a', 'é', '12:', '中文', ':,', 'x' * 300, '\U0001f600~', '\n\n', '\ufeff', '\ufeffBOM first', 'mid\ufeffdle', '\x00', '\ufffe\uffff', '\u2028', 'e\u0301']
 FLOATS = [0.0, -0.0, 1.5, 0.1, 1 / 3, 1e22, 1e-7, 1.7976931348623157e308, 5e-324, 2.0 ** 53, 0.1 + 0.2, 123456789.123456789, float('inf'),
           -float('inf'), 2.5e-5, 1e16, 123456789012345678.0]
 INTS = [0, 1, -1, 9, 10, -10, 99, 100, 2 ** 31, -2 ** 63, 2 ** 64, 10 ** 30, -10 ** 30, 12345]
@@ -206,6 +206,31 @@ def impl_from(chunks, ignore):
         err = type(e).__name__
     finally:
         conn.close()
+    return out, err
+
+
+def impl_from_gaps(chunks, ignore):
+    """tnet_from with a receive timeout that expires before every chunk (a gap longer than the timeout between any two chunks,
+    also in mid-message): recv is scripted - None (timed out) then the chunk - and the timeout is 0, so each None makes
+    tnet_from yield None and start a fresh timeout.  -> (messages yielded, Nones filtered out; error name or None)"""
+    from cpppo.server import tnet
+    script = []
+    for c in chunks:
+        script += [None, c]
+    script += [None, b'']
+    saved = tnet.network.recv
+    tnet.network.recv = lambda conn, maxlen=4096, timeout=None: script.pop(0) if script else b''
+    out, err = [], None
+    try:
+        for m in tnet.tnet_from(None, ('verif', 1), timeout=0, ignore=ignore):
+            if m is not None:
+                out.append(m)
+            if len(out) > 50:
+                break
+    except Exception as e:
+        err = type(e).__name__
+    finally:
+        tnet.network.recv = saved
     return out, err
 
 
@@ -329,6 +354,12 @@ def run(ctx):
             if not ok:
                 ndis += 1; first = first or dict(kind='tnet_from', chunks=[c.hex() for c in ch][:8], ignore=ign.hex(), impl=repr((iout, ierr))[:300],
                                                  model=repr((mvals, o[0]))[:300])
+            gout, gerr = impl_from_gaps(ch, ign or None)
+            inn = [x for x in iout if x is not None]       # a null message and an expired timeout are both yielded as None
+            if gerr != ierr or len(gout) != len(inn) or not all(same(a, b) for a, b in zip(gout, inn)):
+                bad(dict(messages=repr(msgs)[:300], chunks=[c.hex() for c in ch][:10], ignore=ign.hex(), yielded=repr(iout)[:300], error=ierr,
+                         yielded_with_timeouts=repr(gout)[:300], error_with_timeouts=gerr),
+                    'tnet_from yields different messages when receive timeouts expire between the chunks of the stream')
             if ierr is not None or len(iout) != len(msgs) or not all(same(a, b) for a, b in zip(iout, msgs)):
                 bad(dict(messages=repr(msgs)[:300], chunks=[c.hex() for c in ch][:10], ignore=ign.hex(), yielded=repr(iout)[:300], error=ierr),
                     'tnet_from did not yield exactly the messages of the stream for this chunking')
